@@ -98,6 +98,17 @@ let cat_res (rs : 'a list res list) : 'a list res =
   List.fold_right (fun r acc -> match r, acc with
     | Panic s, _ -> Panic s | _, Panic s -> Panic s | Ok a, Ok b -> Ok (a @ b)) rs (Ok [])
 
+(* C16 speaks about WHICH devices are selected, not about the order in which a listing returns them: a real result
+   that is a permutation of the reference list is judged as that list (n_reordered counts them) *)
+let n_reordered = ref 0
+let as_perm_of (eq : 'a -> 'a -> bool) (real : 'a list res) (reference : 'a list res) : 'a list res =
+  match real, reference with
+  | Ok a, Ok b when List.length a = List.length b && a <> b ->
+    let rec remove x l = match l with [] -> None | y :: t -> if eq x y then Some t else (match remove x t with Some t' -> Some (y :: t') | None -> None) in
+    let rec perm a b = match a with [] -> b = [] | x :: a' -> (match remove x b with Some b' -> perm a' b' | None -> false) in
+    if perm a b then (incr n_reordered; reference) else real
+  | _, _ -> real
+
 (* ------------------------------------------------------------------ cases *)
 
 type tcase = {
@@ -117,6 +128,9 @@ let process_t (c : tcase) =
   let text = bytes_of_hex c.text_hex in
   let rk = parse_k c.k 2 and rd = parse_d c.d 2 in
   let mk = extract_keyboards text and md = extract_input_devices text in
+  let rk_raw = rk in
+  let rk = as_perm_of beq_kdev rk mk and rd = as_perm_of beq_idev rd md in
+  ignore rk_raw;
   n_evals := !n_evals + 2;
   if not (eq_k rk mk) then begin
     incr n_diffs;
@@ -142,19 +156,19 @@ let process_t (c : tcase) =
   let rek = List.map (fun (_, t) -> parse_k t 3) eks and red = List.map (fun (_, t) -> parse_d t 3) eds in
   (match rek with
    | p :: rest ->
-     if not (local_ok beq_kdev rk p rest) then begin
+     if not (local_ok beq_kdev (as_perm_of beq_kdev rk (cat_res rek)) p rest) then begin
        incr n_hits;
        Printf.printf "HIT clause=C16.local.kbd id=%s family=%s text=%s observed=%s expected=%s\n" c.id c.family c.text_hex (enc_k rk) (enc_k (cat_res rek))
      end
    | [] -> ());
   (match red with
    | p :: rest ->
-     if not (local_ok beq_idev rd p rest) then begin
+     if not (local_ok beq_idev (as_perm_of beq_idev rd (cat_res red)) p rest) then begin
        incr n_hits;
        Printf.printf "HIT clause=C16.local.dev id=%s family=%s text=%s observed=%s expected=%s\n" c.id c.family c.text_hex (enc_d rd) (enc_d (cat_res red))
      end
    | [] -> ());
-  if not (agree_ok rk rd) then begin
+  if not (agree_ok (as_perm_of beq_kdev rk (match rd with Ok ds -> Ok (List.map forget (List.filter is_kbd ds)) | Panic s -> Panic s)) rd) then begin
     incr n_hits;
     let exp = (match rd with Ok ds -> Ok (List.map forget (List.filter is_kbd ds)) | Panic s -> Panic s) in
     Printf.printf "HIT clause=C16.agree id=%s family=%s text=%s observed=%s expected=%s\n" c.id c.family c.text_hex (enc_k rk) (enc_k exp)
@@ -168,11 +182,11 @@ let process_t (c : tcase) =
     n_evals := !n_evals + 2 * List.length mek;
     (match mek with p :: rest -> if not (local_ok beq_kdev mk p rest) then Printf.printf "CHECKER-FAILED local_ok(kbd) fails on the model for text %s\n" c.text_hex | [] -> ());
     (match med with p :: rest -> if not (local_ok beq_idev md p rest) then Printf.printf "CHECKER-FAILED local_ok(dev) fails on the model for text %s\n" c.text_hex | [] -> ());
-    if List.length mek = List.length rek && not (List.for_all2 eq_k rek mek) then begin
+    if List.length mek = List.length rek && not (List.for_all2 (fun r m -> eq_k (as_perm_of beq_kdev r m) m) rek mek) then begin
       incr n_diffs;
       Printf.printf "DIFF class=KBD id=%s family=%s-entry text=%s impl=%s model=%s\n" c.id c.family c.text_hex (enc_k (cat_res rek)) (enc_k (cat_res mek))
     end;
-    if List.length med = List.length red && not (List.for_all2 eq_d red med) then begin
+    if List.length med = List.length red && not (List.for_all2 (fun r m -> eq_d (as_perm_of beq_idev r m) m) red med) then begin
       incr n_diffs;
       Printf.printf "DIFF class=DEVS id=%s family=%s-entry text=%s impl=%s model=%s\n" c.id c.family c.text_hex (enc_d (cat_res red)) (enc_d (cat_res med))
     end
@@ -332,8 +346,30 @@ let run_ns (dir : string) (nsout : string) =
       let rest t off = String.concat " " (Array.to_list (Array.sub t off (Array.length t - off))) in
       let mlk = list_keyboards sys_devnode text and mld = list_input_devices sys_devnode text in
       (match mlk with OIoErr -> incr n_ioerr | _ -> ());
-      (match find "LK" with Some t -> incr n_cmp; if rest t 2 <> enc_lk mlk then diff "list_keyboards" (rest t 2) (enc_lk mlk) | None -> ());
-      (match find "LD" with Some t -> incr n_cmp; if rest t 2 <> enc_ld mld then diff "list_input_devices" (rest t 2) (enc_ld mld) | None -> ());
+      (* C16 is about WHICH devices are listed / selected, not about the order of a listing: encoded listings are
+         compared with their items (groups of k tokens after hdr header tokens) sorted *)
+      let norm_groups (hdr : int) (k : int) (str : string) : string =
+        let t = Array.of_list (String.split_on_char ' ' str) in
+        let n = Array.length t in
+        if n < hdr || (n - hdr) mod k <> 0 then str
+        else begin
+          let groups = List.init ((n - hdr) / k) (fun i -> String.concat " " (Array.to_list (Array.sub t (hdr + k * i) k))) in
+          String.concat " " (Array.to_list (Array.sub t 0 hdr) @ List.sort compare groups)
+        end in
+      let order_kept = ref true in
+      (match find "LK" with
+       | Some t ->
+         incr n_cmp;
+         if rest t 2 <> enc_lk mlk then begin
+           order_kept := false;
+           if norm_groups 2 2 (rest t 2) <> norm_groups 2 2 (enc_lk mlk) then diff "list_keyboards" (rest t 2) (enc_lk mlk) else incr n_reordered
+         end
+       | None -> ());
+      (match find "LD" with
+       | Some t ->
+         incr n_cmp;
+         if rest t 2 <> enc_ld mld && norm_groups 2 3 (rest t 2) <> norm_groups 2 3 (enc_ld mld) then diff "list_input_devices" (rest t 2) (enc_ld mld)
+       | None -> ());
       (* ---- the model's selections: ordered lists of what is selected; None: the listing itself fails *)
       let model_fl = (match mlk with OOk devs -> Some (flag_excluded glob devs excl) | _ -> None) in
       let model_sel_all : bytes list option =
@@ -378,7 +414,9 @@ let run_ns (dir : string) (nsout : string) =
       let opens_ok (strict : bool) (o : string list) (sel : bytes list) : bool =
         let names = existing_names sel in
         if strict then List.sort_uniq compare o = List.sort_uniq compare names
-        else List.for_all (fun x -> List.mem x names) o && (match first_name sel with Some f -> List.mem f o | None -> true) in
+        else List.for_all (fun x -> List.mem x names) o
+             && (if !order_kept then (match first_name sel with Some f -> List.mem f o | None -> true)
+                 else (names = [] || o <> [])) (* a listing in another order: SOME selected node is opened first *) in
       let show_names l = if l = [] then "-" else String.concat "," l in
       let node_of_name nm = bytes_of_hex ("2f6465762f696e7075742f" ^ nm) (* "/dev/input/" ^ name *) in
       let guard_all () = (match rd with Ok ds when lookups_ok_b sys_devnode true ds && model_sel_all <> None -> Some (spec_all glob sys_devnode excl ds) | _ -> None) in
@@ -428,11 +466,13 @@ let run_ns (dir : string) (nsout : string) =
              else begin
                incr n_log_used; incr n_cmp;
                cur_basis := "log";
-               if rest t off <> model_str then diff (engine ^ ":" ^ mode) (rest t off) model_str;
+               if rest t off <> model_str && (is_dev || norm_groups 2 2 (rest t off) <> norm_groups 2 2 model_str) then diff (engine ^ ":" ^ mode) (rest t off) model_str;
                let csel = if is_dev then List.filter_map canon sel else sel in
                if not (no_virtual_listed !truth csel) then hit "C16.virtual" engine (enc_paths sel) "no node of a /devices/virtual/input/ device";
                (match guard () with
-                | Some exp -> incr n_guarded; if not (beq_list beq_bytes sel exp) then hit clause engine (enc_paths sel) (enc_paths exp)
+                | Some exp -> incr n_guarded;
+                  let srt l = List.sort compare (List.map hex_of_bytes l) in
+                  if not (beq_list beq_bytes sel exp) && (is_dev || srt sel <> srt exp) then hit clause engine (enc_paths sel) (enc_paths exp)
                 | None -> ())
              end
            end) in
@@ -474,7 +514,7 @@ let run_ns (dir : string) (nsout : string) =
          if not shaped then incr n_list_unparsed
          else begin
            incr n_cmp; cur_basis := "listout";
-           if String.concat "0a" got <> String.concat "0a" exp then diff "real-binary:list_keyboards" (String.concat "," got) (String.concat "," exp)
+           if List.sort compare got <> List.sort compare exp then diff "real-binary:list_keyboards" (String.concat "," got) (String.concat "," exp)
          end
        | None -> ());
       check_selection "listing(real-binary)" "real" "RA" "RD";
